@@ -16,6 +16,8 @@
  *        h NON GET /h (the handler takes an application reference)
  *        b NON GET /b (large body, block 0)   n NON GET /b Block2 num 1
  *        B NON GET /b Block2 num 1 with an ETag that does not match
+ *        u w GET /o?a, /o?b Observe:0 with other tokens (several observations of one resource by
+ *          one peer)   U GET /oc?a Observe:0   y GET /o?a Observe:1
  *        x 3-byte runt         v wrong protocol version     e empty CON (ping)
  *        p q P  NON PUT /w Block1 block 0 (more), block 1 (more), block 2 (last): a block-wise
  *          upload whose reassembly state hangs off the session
@@ -70,6 +72,7 @@
  *   T:<sid>:<now>             datagram sent on the session
  *   H:<key>:<sid>             a request handler runs for a request of peer key on session sid
  *   P:<now>                   an idle scan has just run (end of coap_io_do_epoll / prepare)
+ *   K:<sid>                   coap_session_disconnected(sid) has just returned
  *   C                         coap_free_context has just run
  *   U:<what>                  a released session was handed to the library or the driver
  *   B[<sid>:<key>:<ref>:<last>:<dq>;...]        table in iteration order at an op boundary
@@ -402,6 +405,8 @@ static size_t mk_put(uint8_t *b, int p, int num, int more) {
   return n;
 }
 
+static const char *mk_query = NULL;   /* Uri-Query of the next request, and a token variant */
+static unsigned mk_tokv = 0;
 static size_t mk_request(uint8_t *b, int p, int con, const char *path, int observe,
                          int block2_num, int etag) {
   size_t n = 0;
@@ -410,7 +415,7 @@ static size_t mk_request(uint8_t *b, int p, int con, const char *path, int obser
   b[n++] = COAP_REQUEST_CODE_GET;
   b[n++] = (uint8_t)(mid >> 8);
   b[n++] = (uint8_t)mid;
-  b[n++] = (uint8_t)(0xA0 + (p >> 6));      /* token: a function of the peer */
+  b[n++] = (uint8_t)(0xA0 + (p >> 6) + 0x10 * mk_tokv); /* token: a function of the peer */
   b[n++] = (uint8_t)p;
   unsigned last = 0;
   if (etag >= 0) {
@@ -422,6 +427,10 @@ static size_t mk_request(uint8_t *b, int p, int con, const char *path, int obser
     n += put_opt(b + n, &last, COAP_OPTION_OBSERVE, &o, observe ? 1 : 0);
   }
   n += put_opt(b + n, &last, COAP_OPTION_URI_PATH, (const uint8_t *)path, strlen(path));
+  if (mk_query)
+    n += put_opt(b + n, &last, COAP_OPTION_URI_QUERY, (const uint8_t *)mk_query, strlen(mk_query));
+  mk_query = NULL;
+  mk_tokv = 0;
   if (block2_num >= 0) {
     uint8_t v = (uint8_t)((block2_num << 4) | 6);   /* szx 6 = 1024 byte blocks */
     n += put_opt(b + n, &last, COAP_OPTION_BLOCK2, &v, 1);
@@ -568,6 +577,11 @@ static void run_history(void) {
       case 'o': n = mk_request(b, p, 0, "o", 0, -1, -1); break;
       case 'O': n = mk_request(b, p, 0, "oc", 0, -1, -1); break;
       case 'd': n = mk_request(b, p, 0, "o", 1, -1, -1); break;
+      /* further observations of the same resource by the same peer: other query, other token */
+      case 'u': mk_query = "a"; mk_tokv = 1; n = mk_request(b, p, 0, "o", 0, -1, -1); break;
+      case 'w': mk_query = "b"; mk_tokv = 2; n = mk_request(b, p, 0, "o", 0, -1, -1); break;
+      case 'U': mk_query = "a"; mk_tokv = 1; n = mk_request(b, p, 0, "oc", 0, -1, -1); break;
+      case 'y': mk_query = "a"; mk_tokv = 1; n = mk_request(b, p, 0, "o", 1, -1, -1); break;
       case 'D': n = mk_request(b, p, 0, "oc", 1, -1, -1); break;
       case 'a': n = mk_request(b, p, 1, "a", -1, -1, -1); break;
       case 'h': n = mk_request(b, p, 0, "h", -1, -1, -1); break;
@@ -633,7 +647,11 @@ static void run_history(void) {
     } else if (!strncmp(op, "disc:", 5)) {
       int p = atoi(op + 5);
       coap_session_t *s = (p >= 0 && p < MAXP) ? live_session_of(p) : NULL;
-      if (s) coap_session_disconnected(s, COAP_NACK_NOT_DELIVERABLE);
+      if (s) {
+        int sid = sid_of(s);
+        coap_session_disconnected(s, COAP_NACK_NOT_DELIVERABLE);
+        emit("K:%d", sid);     /* disconnected: nothing of the library may hang off it any more */
+      }
     } else if (!strcmp(op, "freeep")) {
       /* probe only (not generated): coap_free_endpoint() on a live context */
       if (g_ep) {
